@@ -48,6 +48,7 @@ class Scheduler:
         self.kb = None
         self.diverged = None
         self.main_points = 0
+        self.kb_natural_end = False
 
     # -- core ---------------------------------------------------------------------------------
     def _enabled(self, tid, self_enabled=True):
@@ -97,6 +98,7 @@ class Scheduler:
         if tid == 1:
             # hand the baton back to main (free switch)
             if not self.killing:
+                self.kb_natural_end = True
                 p = Point(1, 'thread_exit', [0], False, False)
                 self.points.append(p)
                 self.state[0] = 'run'
@@ -206,6 +208,7 @@ def run_scheduled(tdir, argv, script, choices, session='default_run'):
     o.exit_write = None           # (main points passed, guesses printed) at the should_exit write
     o.consumed = []               # input() answers consumed so far
     o.exit_after_q = None
+    o.q_dropped = False           # the thread came back for more input after a q without having set the flag
     o.status_calls = 0
     o.thread_exc = None
     nprinted = [0]
@@ -233,6 +236,8 @@ def run_scheduled(tdir, argv, script, choices, session='default_run'):
                 fail_status = [False]
 
                 def fake_input(*a):
+                    if o.consumed and o.consumed[-1] == 'q' and o.exit_write is None:
+                        o.q_dropped = True
                     sc.point(1, 'input')
                     if not script:
                         sc.block_forever(1)
@@ -338,6 +343,7 @@ def run_scheduled(tdir, argv, script, choices, session='default_run'):
     if shim.created:
         o.thread_exc = shim.created[0].exc
     o.labels = [(p.tid, p.label) for p in sc.points]
+    o.kb_natural_end = sc.kb_natural_end
     return o
 
 
